@@ -767,6 +767,12 @@ class Table(Vector):
 		if not target_indices:
 			return # No columns selected, nothing to do
 
+		# The row key may be one of this table's own columns (t[t.flag] = False):
+		# the columns are written one after the other, so a live key would change
+		# under the loop and later columns would address other rows. Use a snapshot.
+		if isinstance(row_spec, Vector) and not isinstance(row_spec, Table):
+			row_spec = row_spec.copy()
+
 		# A write that cannot be kept local is refused as a whole: ask every target
 		# column before the first one is written, so that an AliasError raised for a
 		# later column does not leave the earlier ones already changed.
